@@ -14,6 +14,11 @@ namespace vh
 
   static const int MOVED = -777;
 
+  // A foreign value type: every element flavour is *explicitly* constructible from it but not
+  // assignable from it, so ranges of Seed reach the "construct only" overloads of the library
+  // (assign_with_range for non-assignable references, emplace-construction in insert/append).
+  struct Seed { int v; };
+
   // Pieces shared by every tracked flavour.  DN/VN: default / value constructor is noexcept.
 #define VH_ELEM_HEAD(Name, DN, VN)                                                             \
     int v;                                                                                     \
@@ -21,6 +26,8 @@ namespace vh
     { if (! (DN)) fault_point (F_DEFAULT_CTOR); registry ().on_construct (this); }             \
     Name (int x, HarnessTag) noexcept : v (x) { registry ().on_construct (this); }             \
     Name (int x) noexcept (VN) : v (x)                                                         \
+    { if (! (VN)) fault_point (F_VALUE_CTOR); registry ().on_construct (this); }               \
+    explicit Name (const Seed& s) noexcept (VN) : v (s.v)                                      \
     { if (! (VN)) fault_point (F_VALUE_CTOR); registry ().on_construct (this); }               \
     ~Name () { registry ().on_destroy (this); }                                                \
     friend bool operator== (const Name& a, const Name& b)                                      \
@@ -69,6 +76,7 @@ namespace vh
     int v;
     TRIV () = default;
     TRIV (int x) noexcept : v (x) { }
+    explicit TRIV (const Seed& s) noexcept : v (s.v) { }
     TRIV (int x, HarnessTag) noexcept : v (x) { }
     friend bool operator== (const TRIV& a, const TRIV& b) { return a.v == b.v; }
     friend bool operator!= (const TRIV& a, const TRIV& b) { return a.v != b.v; }
